@@ -96,6 +96,24 @@ def late_children_programs(draw):
     return ["task", ["list", forms], {}, {}]
 
 
+@st.composite
+def duplicate_programs(draw):
+    """The same call (of a task that itself makes child calls) reached from different parents and
+    expressions, so that in some schedules the duplicate finds its twin still pending and in others
+    already recorded."""
+    v = draw(st.integers(0, 2))
+    inner = ["list", [["task", ["lit", ["int", v]], {}, {}], ["task", ["lit", ["int", v + 1]], {}, {}]]]
+    if draw(st.booleans()):
+        inner = ["op", "add", ["task", ["lit", ["int", v]], {}, {}], ["task", ["lit", ["int", v + 5]], {}, {}]]
+    J = ["task", inner, {}, {}]
+    slow = ["task", ["task", ["lit", ["int", 9]], {}, {}], {}, {}]
+    forms = [J, ["task", ["list", [J]], {}, {}], ["task", ["var", "a"], {"a": J}, {}],
+             ["list", [slow, J]], ["task", ["list", [["var", "a"], J]], {"a": slow}, {}]]
+    n = draw(st.integers(2, 4))
+    picks = [forms[draw(st.integers(0, len(forms) - 1))] for _ in range(n)]
+    return ["list", picks + [["task", ["list", [["lit", ["int", 77]], ["var", "a"]]], {"a": J}, {}]]]
+
+
 def add_limits(ast, every):
     """Give every task node a `limits: [r1]` option (to let limit configurations bite)."""
     if isinstance(ast, list):
@@ -113,13 +131,15 @@ def add_limits(ast, every):
 
 @st.composite
 def cases(draw):
-    fam = draw(st.sampled_from(["generic", "generic", "handle", "handle", "single-error", "late", "late"]))
+    fam = draw(st.sampled_from(["generic", "generic", "handle", "handle", "single-error", "late", "late", "dups", "dups"]))
     if fam == "generic":
         prog = draw(P.programs(max_depth=3, modes=("node", "dnode"), errors=False, allow=NOERR))
     elif fam == "handle":
         prog = draw(handle_programs())
     elif fam == "late":
         prog = draw(late_children_programs())
+    elif fam == "dups":
+        prog = draw(duplicate_programs())
     else:
         prog = draw(single_source_error_programs())
     prog = add_limits(prog, True)
